@@ -9,8 +9,7 @@ import (
 	"golang.org/x/tools/go/packages"
 )
 
-const loadSyntax = packages.NeedName | packages.NeedFiles | packages.NeedCompiledGoFiles | packages.NeedImports |
-	packages.NeedTypes | packages.NeedTypesSizes | packages.NeedSyntax | packages.NeedTypesInfo | packages.NeedDeps | packages.NeedModule
+const loadSyntax = packages.LoadSyntax | packages.NeedModule
 
 type PropCheck struct {
 	ID   string
